@@ -29,7 +29,9 @@ func Compact(buf *bytes.Buffer, src []byte, escape bool) error {
 		return errors.ErrUnexpectedEndOfJSON("", 0)
 	}
 	buf.Grow(len(src))
-	dst := buf.Bytes()
+	// use the spare capacity of buf as the working area: dst must start empty,
+	// what compact appends to it is written to buf afterwards
+	dst := buf.Bytes()[buf.Len():]
 
 	ctx := TakeRuntimeContext()
 	ctxBuf := ctx.Buf[:0]
